@@ -340,6 +340,7 @@ func checkC17(p *Prog, r *Report) {
 				c := fmt.Sprintf("%s:maps.Keys#%d", fnName(fn), nk)
 				/* Every use other than slices.Sort must be dominated by a Sort of this value. */
 				var srt *ssa.Call
+				viaField := false
 				for _, ref := range *x.Referrers() {
 					if sc, ok := ref.(*ssa.Call); ok && ("slices.Sort" == calleeName(sc.Common()) || "sort.Strings" == calleeName(sc.Common())) && sc.Common().Args[0] == ssa.Value(x) {
 						srt = sc
@@ -359,6 +360,48 @@ func checkC17(p *Prog, r *Report) {
 				if onlySorted {
 					rDet.OK(c, posOf(i), "consumed by slices.Sorted")
 					return
+				}
+				if nil == srt {
+					/* Put into a field and sorted there, before anything
+					else looks (a table built once and kept). */
+					for _, ref := range *x.Referrers() {
+						st, isSt := ref.(*ssa.Store)
+						if !isSt || st.Val != ssa.Value(x) {
+							continue
+						}
+						if _, isFA := st.Addr.(*ssa.FieldAddr); !isFA {
+							continue
+						}
+						eachInstr(fn, func(j ssa.Instruction) {
+							sc, ok := j.(*ssa.Call)
+							if !ok || ("slices.Sort" != calleeName(sc.Common()) && "sort.Strings" != calleeName(sc.Common())) {
+								return
+							}
+							ld, isLd := sc.Common().Args[0].(*ssa.UnOp)
+							if isLd && token.MUL == ld.Op && sameAddr(ld.X, st.Addr) && instrDominates(st, sc) && nil == (reachQ{From: locOf(st), Block: func(k ssa.Instruction) bool { return k == ssa.Instruction(sc) }, Target: func(k ssa.Instruction) bool {
+								u, isU := k.(*ssa.UnOp)
+								return isU && token.MUL == u.Op && u != ld && sameAddr(u.X, st.Addr)
+							}}).run() {
+								srt = sc
+								viaField = true
+							}
+						})
+					}
+				}
+				if nil != srt && viaField {
+					okOther := true
+					for _, ref := range *x.Referrers() {
+						switch ref.(type) {
+						case *ssa.Store, *ssa.DebugRef:
+						default:
+							okOther = false
+						}
+					}
+					if okOther {
+						rDet.OK(c, posOf(i), "stored into a field and sorted there before any other read")
+						return
+					}
+					srt = nil
 				}
 				if nil == srt {
 					rDet.Bad(c, posOf(i), "the keys of a map are used without being sorted: which pattern matches first (and so which filter converts a file) changes from call to call")
@@ -633,6 +676,26 @@ func checkFirstMatch(p *Prog, ru *Rule, fr *ssa.Function) {
 		case "call" == x.Kind && strings.HasSuffix(x.Callee, "maps.Keys"):
 			/* Sorted in this function (checked by the maps.Keys rule). */
 			sorted = true
+		case "field" == x.Kind && nil != x.Field:
+			/* A list kept in a table: whatever is ever stored there is a
+			key list (sorted where it is made: the maps.Keys rule) or
+			slices.Sorted(...). */
+			sts := p.storesToField(x.Field)
+			all := 0 != len(sts)
+			for _, st := range sts {
+				sc, isCall := stripConv(st.Val, false).(*ssa.Call)
+				if !isCall {
+					all = false
+					continue
+				}
+				n := calleeName(sc.Common())
+				if !(strings.HasSuffix(n, "maps.Keys") || (strings.HasPrefix(n, "slices.Sorted") && !strings.HasPrefix(n, "slices.SortedFunc"))) {
+					all = false
+				}
+			}
+			if all {
+				sorted = true
+			}
 		case "param" == x.Kind:
 			/* Every caller must pass a sorted list. */
 			idx := paramIndex(fr, x.V)
